@@ -194,6 +194,13 @@ open ActixNet.ServerCmd
 theorem signal_map : Src.mapSignalGraceful .Int = false ∧ Src.mapSignalGraceful .Quit = false ∧ Src.mapSignalGraceful .Term = true ∧
     ∀ sig, cmdOfSignal sig = .stop (Src.mapSignalGraceful sig) none := ⟨rfl, rfl, rfl, fun _ => rfl⟩
 
+/-- **OS signals, end to end in the source**: the table of `Signals::new` (signals.rs, T1 span `srv_signal_table`)
+composed with `map_signal` (server.rs, `Src.mapSignalGraceful`): SIGINT and SIGQUIT start a forced shutdown,
+SIGTERM a graceful one — and nothing else is listened to. -/
+theorem os_signal_map :
+    (Src.sigMapTable.map fun p => (p.1, Src.mapSignalGraceful p.2)) = [("interrupt", false), ("terminate", true), ("quit", false)] := by
+  decide
+
 /-- the events of one named step of `handle_cmd(Stop)` (names as produced by the T1 span `srv_handle_stop_order`) -/
 def stepEvs (workers : List Nat) (g : Bool) (comp : Option Nat) (guard : String) : String → List Ev
   | "wake_stop" => [.wake .stop]
